@@ -323,9 +323,12 @@ Definition pe_eqb (x y : rpath * entry) : bool :=
 Definition diff_pe (a b : list (rpath * entry)) : list (rpath * entry) :=
   filter (fun x => negb (existsb (pe_eqb x) b)) a.
 
-(* tracked content strictly below a path in a snapshot *)
+(* synchronized content (a file, a link or a directory; not problematic or
+   untracked content) strictly below a path in a snapshot *)
+Definition synchronized_kind (e : entry) : bool :=
+  match e with EFile _ _ | ELink _ | EDir _ => true | _ => false end.
 Definition holds_below (snap : entry) (d : rpath) : bool :=
-  existsb (fun pe => tracked_kind (Some (snd pe)) && above_eq d (fst pe)
+  existsb (fun pe => synchronized_kind (snd pe) && above_eq d (fst pe)
                      && negb (rpath_eqb d (fst pe))) (entries [] snap).
 
 Definition entry_at (snap : entry) (q : rpath) : oentry :=
